@@ -7,6 +7,11 @@ BASELINE_OFF = ("cd /repo && cargo nextest run --workspace --no-fail-fast --tool
                 "--test-threads 8 --offline || (cd /repo && cargo test --workspace --no-fail-fast --offline)")
 
 CHECKS = {
+ "C10": dict(
+   technique="bounded-exhaustive + proptest call histories; oracle = reference model of the INSERT builder state (stateful / model-based), rendered text lexed and compared with the model",
+   text="Exploration: every call history of length <= 5 (quick) / 6 (thorough) over a 15-symbol alphabet of columns / values / values_panic / select_from / or_default_values calls, plus random longer histories with wider rows. Each call's outcome and error payload, the unchanged-on-error guarantee, and the final rendering (3 backends, both modes) are compared with a reference model.",
+   note="Setter semantics for a later source of the other kind are taken from the code; the rendered text is lexed with the harness's dialect lexers.",
+   ref="DESIGN.md 4/C10"),
  "C04": dict(
    technique="bounded-exhaustive + proptest names at 73 identifier positions; oracle = independent dialect lexers (differential token-stream comparison against a benign reference name) + SQLite catalogue read-back",
    text="Exploration: every non-empty name over {a \" ` ' \\ . space $ é} up to length 2 (quick) / 3 (thorough) at each of 73 identifier positions of query and schema statements on each backend that supports the position, plus random Unicode names. The rendered statement must lex, under the engine's rules, to the reference token stream with exactly the expected identifier token(s) decoding to the supplied name; on SQLite table / column / index / alias names are read back from the engine.",
